@@ -61,6 +61,24 @@ class FuncRef:
         return 'FuncRef({})'.format(self.func.fq)
 
 
+class BoundConst:
+    """A method of a constant object used as a value (`_target_ex.sub`)."""
+    def __init__(self, obj, name):
+        self.obj, self.name = obj, name
+
+    def __repr__(self):
+        return 'BoundConst({!r}.{})'.format(self.obj, self.name)
+
+
+class PartialConst:
+    """functools.partial(<constant callable>, <constant arguments>)."""
+    def __init__(self, func, args):
+        self.func, self.args = func, tuple(args)
+
+    def __repr__(self):
+        return 'PartialConst({!r}, {!r})'.format(self.func, self.args)
+
+
 class Sentinel:
     """The unique object created by one `object()` expression."""
     def __init__(self, node):
@@ -206,6 +224,11 @@ def const_eval(repo, module, expr, cls=None, local=None, depth=0):
         txt = unparse(expr)
         if txt in POSIX_FOLD:
             return POSIX_FOLD[txt]
+        if expr.attr in ('sub', 'subn', 'search', 'match', 'fullmatch') and \
+                isinstance(base, ast.Name) and depth < 20:
+            bv = ev(base)
+            if isinstance(bv, RegexConst):
+                return BoundConst(bv, expr.attr)
         r = repo.resolve_expr(module, expr, None)
         if r is None and isinstance(base, (ast.Name, ast.Attribute)):
             # Enum member access: Syntax.shell
@@ -258,6 +281,24 @@ def const_eval(repo, module, expr, cls=None, local=None, depth=0):
         fn = unparse(expr.func)
         if fn == 'object' and not expr.args and not expr.keywords:
             return Sentinel(expr)
+        if fn in ('partial', 'functools.partial') and expr.args and \
+                not expr.keywords:
+            vals = [ev(a) for a in expr.args]
+            if any(v is UNKNOWN for v in vals):
+                return UNKNOWN
+            return PartialConst(vals[0], vals[1:])
+        if isinstance(expr.func, ast.Name) and depth < 12:
+            # a call of a small pure repository function with constant
+            # arguments (a regex factory, a string builder): folded
+            fv = ev(expr.func)
+            if isinstance(fv, FuncRef):
+                vals = [ev(a) for a in expr.args]
+                kws = {k.arg: ev(k.value) for k in expr.keywords if k.arg}
+                if not any(v is UNKNOWN for v in vals) and not any(
+                        v is UNKNOWN for v in kws.values()) and all(
+                            k.arg for k in expr.keywords):
+                    return _fold_call(repo, fv.func, vals, kws, depth + 1)
+                return UNKNOWN
         is_re_compile = fn == 're.compile'
         if not is_re_compile and isinstance(expr.func, ast.Attribute) and \
                 expr.func.attr == 'compile' and isinstance(
@@ -553,3 +594,61 @@ def repl_to_template(repo, module, fnode):
             return v.replace('\\', '\\\\')
         return UNKNOWN
     return tmpl(ret)
+
+
+def _fold_call(repo, fi, args, kwargs, depth):
+    """Value of a call of a small pure function (assignments of locals,
+    foldable ifs, one return per path) with constant arguments."""
+    a_ = fi.node.args
+    if a_.vararg or a_.kwarg or a_.kwonlyargs:
+        return UNKNOWN
+    names = [x.arg for x in a_.posonlyargs + a_.args]
+    if len(args) > len(names):
+        return UNKNOWN
+    env = {}
+    defaults = a_.defaults
+    for i, n in enumerate(names):
+        if i < len(args):
+            env[n] = args[i]
+        elif n in kwargs:
+            env[n] = kwargs[n]
+        else:
+            j = i - (len(names) - len(defaults))
+            if j < 0:
+                return UNKNOWN
+            v = const_eval(repo, fi.module, defaults[j], None, None, depth)
+            if v is UNKNOWN:
+                return UNKNOWN
+            env[n] = v
+
+    def block(body):
+        for st in body:
+            if isinstance(st, ast.Expr) and isinstance(st.value,
+                                                       ast.Constant):
+                continue
+            if isinstance(st, ast.Assign) and len(st.targets) == 1 and \
+                    isinstance(st.targets[0], ast.Name):
+                v = const_eval(repo, fi.module, st.value, None, env, depth)
+                if v is UNKNOWN:
+                    return UNKNOWN
+                env[st.targets[0].id] = v
+                continue
+            if isinstance(st, ast.If):
+                t = fold_test(repo, fi.module, st.test, None, env, depth)
+                if t is None:
+                    return UNKNOWN
+                r = block(st.body if t else st.orelse)
+                if r is not None:
+                    return r
+                continue
+            if isinstance(st, ast.Return):
+                if st.value is None:
+                    return ('ret', None)
+                v = const_eval(repo, fi.module, st.value, None, env, depth)
+                return UNKNOWN if v is UNKNOWN else ('ret', v)
+            return UNKNOWN
+        return None
+    r = block(fi.node.body)
+    if r is UNKNOWN or r is None:
+        return UNKNOWN
+    return r[1]
